@@ -696,7 +696,14 @@ impl TextResource {
                     None
                 }
             })),
-            PositionMode::Both => Box::new(self.positionindex.keys()),
+            //(the milestones are in the position index as well, but no text selection begins or ends there)
+            PositionMode::Both => Box::new(self.positionindex.iter().filter_map(|(k, positem)| {
+                if !positem.begin2end.is_empty() || !positem.end2begin.is_empty() {
+                    Some(k)
+                } else {
+                    None
+                }
+            })),
         }
     }
 
@@ -733,11 +740,18 @@ impl TextResource {
                         }
                     }),
             ),
+            //(the milestones are in the position index as well, but no text selection begins or ends there)
             PositionMode::Both => Box::new(
                 self.positionindex
                     .0
                     .range((Included(&begin), Excluded(&end)))
-                    .map(|(k, _)| k),
+                    .filter_map(|(k, positem)| {
+                        if !positem.begin2end.is_empty() || !positem.end2begin.is_empty() {
+                            Some(k)
+                        } else {
+                            None
+                        }
+                    }),
             ),
         }
     }
